@@ -44,12 +44,24 @@ def gen_script(rng, cid, kind=None):
         for _ in range(nmods):
             if relevant:
                 d, nm = rng.choice(toml)
-                mode = rng.choice(["a", "a", "t"])
+                mode = rng.choice(["a", "a", "t", "e"])
             else:
                 d, nm = rng.choice(other)
-                mode = rng.choice(["a", "t", "m"])
+                mode = rng.choice(["a", "t", "m", "e"])
             ops.append("w.mod %d %s %s" % (d, hx(nm), mode))
             group.append((nm, mode))
+        if relevant and rng.random() < 0.4:
+            # the TOML modification is followed (the notification possibly not yet taken) by events that are none: an
+            # editor's swap / backup file, a chmod of the file itself
+            for _ in range(rng.choice([1, 2, 4])):
+                if rng.random() < 0.7:
+                    d2, nm2 = rng.choice(other)
+                    md2 = rng.choice(["a", "t", "m", "e"])
+                else:
+                    d2, nm2 = rng.choice(toml)
+                    md2 = "m"
+                ops.append("w.mod %d %s %s" % (d2, hx(nm2), md2))
+                group.append((nm2, md2))
         if not relevant and rng.random() < 0.3:
             # metadata change of a TOML file: not a modification of its content
             d, nm = rng.choice(toml)
@@ -160,7 +172,7 @@ def run(prop, tier, seed, verdict):
     return {
         "evaluations": sum(counts.values()), "distinct_nontrivial": len({tuple(o) for o, _, _ in scripts}),
         "rule": "scripts over a temporary tree with the four watched directories holding TOML files (.toml/.TOML/.Toml) and other files (incl. names "
-                "ending in 'toml' without the dot): in-place append / truncate-and-rewrite / chmod, single and in bursts, consumer reading at once or "
+                "ending in 'toml' without the dot): in-place append / truncate-and-rewrite / emptying / chmod, single and in bursts, a TOML modification followed by non-TOML events before the consumer reads, consumer reading at once or "
                 "after 30-400 ms, cancellation with nothing pending or while a notification is offered and nobody reads; one run with the descriptor "
                 "limit at 0 so that the watcher cannot be created (stream silent, ends after cancellation); distinct = distinct scripts",
         "traces_validated_against_impl": len(scripts), "clause_evaluations": counts, "script_kinds": kinds, "disagreements": disag,
